@@ -196,8 +196,7 @@ def run_cases(ctx, cases):
         ctx.count("mode." + case.get("mode", "eager"))
         ctx.count(f"workers={len(case['nets'])}")
         if status.startswith("error:ValueError:Detected") or status.startswith("error:AssertionError"):
-            dbl = (not case["suite"].get("path")) and any(
-                sum(1 for o in t["objs"].values() if o["get"] and not o["get_state"]) >= 2 for t in case["suite"]["tests"])
+            dbl = gl.double_clone_suite(case)
             ctx.violate("double-clone" if dbl else "parser-rejects-own-graph", status[:300], dict(case))
             ctx.case(c06.brief(case), nontrivial=True)
             continue
